@@ -88,8 +88,13 @@ class Relation:
             and self.card_max == other.card_max
         )
 
+    def _sort_key(self) -> tuple[str, int, int, list[str]]:
+        """Key that, as __eq__, does not depend on the position of the children."""
+        parent_name = self.parent.name if self.parent else ""
+        return (parent_name, self.card_min, self.card_max, sorted(c.name for c in self.children))
+
     def __lt__(self, other: Any) -> bool:
-        return str(self) < str(other)
+        return self._sort_key() < other._sort_key()
 
 
 class FeatureType(Enum):
